@@ -24,6 +24,9 @@ type Evidence struct {
 
 func (e *Evidence) Write(verifDir string) error {
 	dir := filepath.Join(verifDir, "evidence")
+	if d := os.Getenv("VERIF_EVIDENCE_DIR"); d != "" {
+		dir = d // sensitivity runs against patched scratch copies must not overwrite the real evidence
+	}
 	if err := os.MkdirAll(dir, 0o755); err != nil {
 		return err
 	}
@@ -124,6 +127,9 @@ func Digest(parts ...string) string {
 // WriteReplay stores the replay under /verif/replays and returns its path.
 func WriteReplay(verifDir string, r *Replay) (string, error) {
 	dir := filepath.Join(verifDir, "replays")
+	if d := os.Getenv("VERIF_REPLAY_DIR"); d != "" {
+		dir = d
+	}
 	if err := os.MkdirAll(dir, 0o755); err != nil {
 		return "", err
 	}
